@@ -177,6 +177,26 @@ def _style_pair(draw):
     return {"plain": plain, "anns": [list(x) for x in spans], "source": None, "mode": draw(st.sampled_from(["skip", "skip", "wrap"])), "dmp": True}
 
 
+@st.composite
+def _long_case(draw):
+    """Long (> 120 characters) multi-line plain texts with repeated lines (diff engines switch strategy on long inputs)."""
+    lines = draw(st.lists(st.lists(st.sampled_from(["a", "b", " ", "1", ".", "U.S.", "Id.", "§", "é", "x y"]), min_size=3, max_size=10).map("".join), min_size=2, max_size=4))
+    seq = draw(st.lists(st.integers(0, len(lines) - 1), min_size=10, max_size=20))
+    plain = "\n".join(lines[i] for i in seq)
+    source = draw(_source_for(plain))
+    if source is not None and draw(st.booleans()):
+        s2 = list(source)
+        for _ in range(draw(st.integers(1, 8))):
+            s2.insert(draw(st.integers(0, len(s2))), draw(st.sampled_from(TAGS)))
+        source = "".join(s2)
+    spans = []
+    for _ in range(draw(st.integers(0, 6))):
+        a = draw(st.integers(0, len(plain)))
+        b = draw(st.integers(a, min(len(plain), a + 30)))
+        spans.append([a, b])
+    return {"plain": plain, "anns": spans, "source": source, "mode": draw(st.sampled_from(MODES)), "dmp": draw(st.booleans())}
+
+
 def _extracted():
     return st.builds(lambda mk, mode, dmp: {**mk, "mode": mode, "dmp": dmp}, markup.marked_up(), st.sampled_from(MODES), st.sampled_from([True, True, False]))
 
@@ -185,4 +205,5 @@ def phases(tier):
     n, n2 = (60000, 2000) if tier == "quick" else (2000000, 100000)
     return [Phase("random", "gen", strategy=_case, n=n), Phase("tag-rich", "gen", strategy=_tagrich, n=n // 2),
             Phase("style-pair", "gen", strategy=_style_pair, n=n // 10),
+            Phase("long-multiline", "gen", strategy=_long_case, n=n // 10),
             Phase("extracted", "gen", strategy=_extracted, n=n2)]
